@@ -373,6 +373,66 @@ pub fn tamper(out: &mut Out, tier: &str, seed: u64, c02: bool, c17: bool) {
                 else if r.is_panic() { out.hit("obj.secretbox.panics-on-tampered", format!("{} len {}", what, len), rp.clone()); }
             }
         }
+        // the object API assembled from parts held in Vecs: an authenticator (or ephemeral key) that is too long or too
+        // short is a changed ciphertext too -- an error, never a message and never a panic
+        if c02 && !big && len % 4 == 1 {
+            use dryoc::dryocbox::DryocBox;
+            let (n_a, k_a) = (StackByteArray::<24>::from(&n), StackByteArray::<32>::from(&k));
+            let resize = |v: &[u8], how: usize| -> Vec<u8> { match how { 0 => [v.to_vec(), vec![0xaa]].concat(), 1 => [v.to_vec(), vec![0]].concat(), 2 => v[..v.len() - 1].to_vec(), _ => vec![] } };
+            let names = ["extended by one byte", "extended by a zero byte", "one byte short", "empty"];
+            for how in 0..4 {
+                out.search_evaluations += 4;
+                let t2 = resize(&sbx[..16], how);
+                let r = guard(|| { let bx: DryocSecretBox<Vec<u8>, Vec<u8>> = DryocSecretBox::from_parts(t2.clone(), sbx[16..].to_vec()); bx.decrypt::<Vec<u8>, _, _>(&n_a, &k_a) });
+                let rp = json!({"op":"obj.DryocSecretBox<Vec,Vec>.from_parts+decrypt","tag":hx(&t2),"data":hx(&sbx[16..]),"key":hx(&k),"nonce":hx(&n),"what":names[how]});
+                if r.is_ok() { out.hit("obj.secretbox.accepts-tampered.tag-length", format!("len {}: authenticator {}", len, names[how]), rp.clone()); }
+                if r.is_panic() { out.hit("obj.secretbox.panics-on-tampered.tag-length", format!("len {}: authenticator {}", len, names[how]), rp.clone()); }
+                let bt2 = resize(&bbx[..16], how);
+                let r = guard(|| { let bx: DryocBox<Vec<u8>, Vec<u8>, Vec<u8>> = DryocBox::from_parts(bt2.clone(), bbx[16..].to_vec(), None); bx.decrypt::<_, _, _, Vec<u8>>(&n_a, &StackByteArray::<32>::from(&pka), &StackByteArray::<32>::from(&skb)) });
+                let rp = json!({"op":"obj.DryocBox<Vec,Vec,Vec>.from_parts+decrypt","tag":hx(&bt2),"data":hx(&bbx[16..]),"nonce":hx(&n),"what":names[how]});
+                if r.is_ok() { out.hit("obj.box.accepts-tampered.tag-length", format!("len {}: authenticator {}", len, names[how]), rp.clone()); }
+                if r.is_panic() { out.hit("obj.box.panics-on-tampered.tag-length", format!("len {}: authenticator {}", len, names[how]), rp.clone()); }
+                let kpb: BoxKeyPair = BoxKeyPair::from_secret_key(StackByteArray::<32>::from(&skb));
+                let st2 = resize(&sealed[32..48], how);
+                let r = guard(|| { let bx: DryocBox<Vec<u8>, Vec<u8>, Vec<u8>> = DryocBox::from_parts(st2.clone(), sealed[48..].to_vec(), Some(sealed[..32].to_vec())); bx.unseal::<_, _, Vec<u8>>(&kpb) });
+                let rp = json!({"op":"obj.DryocBox<Vec,Vec,Vec>.from_parts+unseal","tag":hx(&st2),"epk":hx(&sealed[..32]),"data":hx(&sealed[48..]),"what":names[how]});
+                if r.is_ok() { out.hit("obj.seal.accepts-tampered.tag-length", format!("len {}: authenticator {}", len, names[how]), rp.clone()); }
+                if r.is_panic() { out.hit("obj.seal.panics-on-tampered.tag-length", format!("len {}: authenticator {}", len, names[how]), rp.clone()); }
+                let e2 = resize(&sealed[..32], how);
+                let r = guard(|| { let bx: DryocBox<Vec<u8>, Vec<u8>, Vec<u8>> = DryocBox::from_parts(sealed[32..48].to_vec(), sealed[48..].to_vec(), Some(e2.clone())); bx.unseal::<_, _, Vec<u8>>(&kpb) });
+                let rp = json!({"op":"obj.DryocBox<Vec,Vec,Vec>.from_parts+unseal","tag":hx(&sealed[32..48]),"epk":hx(&e2),"data":hx(&sealed[48..]),"what":names[how]});
+                if r.is_ok() { out.hit("obj.seal.accepts-tampered.epk-length", format!("len {}: ephemeral key {}", len, names[how]), rp.clone()); }
+                if r.is_panic() { out.hit("obj.seal.panics-on-tampered.epk-length", format!("len {}: ephemeral key {}", len, names[how]), rp.clone()); }
+            }
+        }
+        // a truncation that removes only zero bytes of the ciphertext, opened into a ZEROED buffer sized for the message the
+        // receiver expects: the bytes the attacker removed are already "there", so only an open that authenticates exactly
+        // the bytes received rejects it (message tails chosen so that the last t ciphertext bytes are zero)
+        if c02 && !big && len >= 1 {
+            for t in 1..=len.min(3) {
+                out.search_evaluations += 2;
+                let ks = sodium::stream_xsalsa20(32 + len, &n, &k);
+                let mut m2 = m.clone(); for j in (len - t)..len { m2[j] = ks[32 + j]; }
+                let b2 = sodium::secretbox_easy(&m2, &n, &k);
+                if b2[b2.len() - t..].iter().any(|x| *x != 0) { out.hit("harness.zero-tail-construction-failed", format!("len {}", len), json!({"len":len})); continue; }
+                let tr = b2[..b2.len() - t].to_vec();
+                let zeroed = vec![0u8; len];
+                let r = sb_open_easy(&zeroed, &tr, &n, &k);
+                let rp = json!({"op":"secretbox.open_easy","key":hx(&k),"nonce":hx(&n),"box":hx(&tr),"what":format!("truncated by {} zero bytes, opened into a zeroed buffer of {} bytes", t, len),"message_buffer":hx(&zeroed),"full_box":hx(&b2)});
+                if r.0.is_ok() { out.hit("secretbox.open_easy.accepts-tampered.truncated-zero-tail", format!("len {}: a box truncated by {} (zero) bytes opens into a zeroed buffer of the expected size, returning {}", len, t, hx(&r.1)), rp.clone()); }
+                if len <= 24 { out.case("secretbox.open_easy", &[b(&zeroed), b(&tr), b(&n), b(&k)], &open_res(&r), true); }
+                // the public-key form (same keystream under the precomputed key)
+                if let Some(bk) = sodium::box_beforenm(&pkb, &ska) {
+                    let ksb = sodium::stream_xsalsa20(32 + len, &n, &bk);
+                    let mut m3 = m.clone(); for j in (len - t)..len { m3[j] = ksb[32 + j]; }
+                    let bb2 = sodium::box_easy(&m3, &n, &pkb, &ska).unwrap();
+                    let trb = bb2[..bb2.len() - t].to_vec();
+                    let mut zb = vec![0u8; len];
+                    let rb = guard(|| crypto_box_open_easy(&mut zb, &trb, &n, &pka, &skb));
+                    if rb.is_ok() { out.hit("box.open_easy.accepts-tampered.truncated-zero-tail", format!("len {}: a box truncated by {} (zero) bytes opens into a zeroed buffer of the expected size", len, t), json!({"op":"box.open_easy","nonce":hx(&n),"pk":hx(&pka),"sk":hx(&skb),"box":hx(&trb),"message_buffer_len":len})); }
+                }
+            }
+        }
         // the error value itself: two different corruptions of the same box must give the same text, and
         // the text must not contain the authenticator of the rejected ciphertext, the plaintext or the key
         if c17 && len >= 1 {
